@@ -10,22 +10,47 @@ TRUST = ("Trusted: the govc engine (go/ssa -> SMT), go/ssa, z3/cvc5; assumed con
 
 # id -> (text, level_note, technique)
 claims = {
- "C03": ("Deductive proof, for all argument values, heap states satisfying the SizedLRU invariant and all loop iteration counts, that every "
-         "index operation (Add, Get, Reserve, Unreserve, removeElement) preserves: currentSize == reservedSize + sum of 4KiB-rounded entry sizes, "
-         "currentSize <= maxSize, uncompressedSize == sum of rounded logical sizes, list/map/entry agreement; plus exact contracts of roundUp4k and sumLargerThan "
-         "under machine arithmetic.",
-         TRUST + "Decided: the accounting invariant as an inductive invariant over the index operations (history quantifier by induction over operations). "
-         "Not decided here: that file sizes on disk equal the recorded sizes; float metrics.",
-         "contract-based deductive verification: object invariant + per-method pre/postconditions, VCs from go/ssa, discharged by z3/cvc5"),
+ "C03": ("Deductive proof, for all argument values, all heap states satisfying the SizedLRU invariant, all outcomes of every external call and all loop iteration counts, that "
+         "every index operation (Add, Get, Reserve, Unreserve, removeElement, RemoveElement, RemoveIfCurrent) preserves: currentSize == reservedSize + sum of 4KiB-rounded entry sizes, "
+         "currentSize <= maxSize, uncompressedSize == sum of rounded logical sizes, list/map/entry agreement; that Stats reports exactly these fields; and that Put, get, "
+         "availableOrTryProxy and commit release exactly the bytes they reserved on every return path (ghost `held` returns to its entry value), under the lock invariant of diskCache.mu "
+         "(Lock havocs the protected state and assumes the invariant, Unlock must re-establish it), so the result holds for every interleaving of critical sections.",
+         TRUST + "Decided: the accounting invariant as an inductive invariant over index operations and critical sections, and reservation neutrality of each request. "
+         "Not decided: that file sizes on disk equal the recorded sizes; float metrics; the meta-argument that per-critical-section preservation implies the invariant whenever the mutex is free.",
+         "contract-based deductive verification: object invariant + lock invariant + ghost reservation ownership; VCs from go/ssa; z3/cvc5"),
+ "C04": ("Deductive proof of the mechanism behind the directory invariant: on every return path of Put and get each temp file created by the request is either removed or adopted by the index "
+         "(ghost tmpOpen/adopted typestate, with the file name and random suffix handed to commit proved equal to those of the created file); the name produced by tempfile.Create is "
+         "<base>-<random>[.v1]; every entry leaving the index through removeElement is queued for deletion exactly once and an overwritten entry's predecessor is queued.",
+         TRUST + "Not decided: the history-level statement itself (files == index + queue + in flight) is the inductive consequence of these obligations and is not mechanised; "
+         "the asynchronous remover (channel hand-over is an assumed contract), file-system behaviour, and start-up loading (load.go) are outside.",
+         "contract-based deductive verification: ghost typestate for temp files, call-site assertions, trusted queue contract"),
  "C05": ("Deductive proof that eviction in Add and Reserve removes only the back (least recently used) entry of the recency sequence and only while the "
-         "incoming item does not fit (call-site obligations at every removeElement call), that survivors are a front part of the previous sequence (Reserve), "
-         "that a hit in Get moves the entry to the front, and that oversize items are rejected without any change.",
+         "incoming item does not fit (call-site obligations at every removeElement call, exact comparison), that survivors of Reserve are a front part of the previous sequence, "
+         "that a hit in Get moves the entry to the front, that Contains/availableOrTryProxy look entries up through Get, that oversize items are rejected without any change, "
+         "and that Put reserves the logical size before writing and overwriting queues the predecessor only inside Add (after the new file is complete).",
          TRUST + "Recency order is the ghost sequence c.ll.seq specified through the assumed contracts of container/list.",
          "contract-based deductive verification: call-site assertions + loop invariants over a ghost recency sequence"),
+ "C07": ("Deductive proof of the lock discipline and of index/accounting integrity under all interleavings of critical sections: every SizedLRU method is called with diskCache.mu held "
+         "(precondition at every call site), every function returns with the mutex released on every path, no path locks twice, the invariant is re-established at every Unlock, and nothing learnt in "
+         "one critical section is used in a later one without re-validation (Lock havocs the protected state) - this is the obligation that exposed the stale-element removal fixed in eda5fe3.",
+         TRUST + "Decided: the index/accounting half of the property and the lock discipline. NOT decided: torn or mixed file contents while a read streams (rests on POSIX unlink/open semantics), "
+         "deadlock freedom involving the semaphore/channels/worker pool, data races on memory not protected by mu.",
+         "contract-based deductive verification: lock invariant (havoc at Lock, assert at Unlock), mutex typestate ghost, rely/guarantee on reservations"),
+ "C12": ("Deductive proof, with the backend modelled as a fully nondeterministic cache.Proxy (any reader/size/error combination), that diskCache.get: leaks no reservation and no temp file on any "
+         "return path, never commits an entry whose size disagrees with the requested size, is negative or exceeds max_proxy_blob_size, validates compressed blobs before commit and (after fix 0da76b0) "
+         "checks the copied length of uncompressed entries before commit, returns a hit only with a non-negative size and nil error, and never adds to the index on a miss/error return; "
+         "that Put hands the blob to the backend at most once and never for rejected uploads; that Contains believes the backend only within the size limits.",
+         TRUST + "Not decided: internals of the http/s3/gcs/azblob/grpc proxy clients, connection/goroutine leaks inside them, file-descriptor balance, byte-level equality of proxied content.",
+         "contract-based deductive verification: nondeterministic interface contract for the backend, ghost resource typestate, call-site assertions"),
  "C17": ("Deductive proof of the admission predicate of Reserve: with max_size_hard_limit > 0 a reservation whose accounted size + observed eviction backlog + size "
-         "exceeds the limit is refused with cache.Error 507 and leaves index, accounting and queue untouched; otherwise it is admitted; without the option the branch is never taken.",
-         TRUST + "The backlog is the value observed by the atomic Load (ghost qobs); how far the remover lags is environment.",
+         "exceeds the limit is refused with cache.Error 507 and leaves index, accounting and queue untouched; otherwise it is admitted; without the option the branch is never taken; "
+         "local hits in availableOrTryProxy/Contains never call Reserve.",
+         TRUST + "The backlog is the value observed by the atomic Load (ghost qobs); how far the remover lags is environment. Status mapping in the HTTP/gRPC front ends is not yet under contract.",
          "contract-based deductive verification: exact postconditions on Reserve over machine integers"),
+ "C18": ("Deductive proof that Put refuses exactly the sizes above max_blob_size (size > limit => 400 and nothing stored; a 400 without reservation implies one of the three input guards, so size == limit is not refused), "
+         "that get/availableOrTryProxy/Contains ask and believe the backend only for sizes <= max_proxy_blob_size and never commit a larger object.",
+         TRUST + "Decided at the disk layer (every front end goes through diskCache.Put/Get/Contains). Not yet under contract: the front-end guards in server/, GetCapabilities, and the wiring of the limits in main.go.",
+         "contract-based deductive verification: exact guard postconditions and call-site assertions"),
 }
 
 checks = []
